@@ -426,7 +426,7 @@ func (prop) Run(scx driver.Scenario, ch *sim.Choices, keep bool) *driver.Result 
 			h = (h ^ uint64(s[i])) * 1099511628211
 		}
 	}
-	lastEdit := ""        // kind of the most recent edit
+	lastEdit := ""         // kind of the most recent edit
 	sameMtime := false     // the most recent edit left size and mtime of the file unchanged
 	pendingFault := Step{} // crash/fserr to apply to the next build
 	afterFault := false
@@ -667,7 +667,7 @@ func (prop) Describe() driver.Description {
 			"a build that fails after an injected crash is an observation, not a violation",
 			"concurrent llgo processes sharing one cache are not interleaved",
 		},
-		FaultKinds: []string{"crash-during-build", "torn-write", "disk-error-during-build"},
+		FaultKinds:  []string{"crash-during-build", "torn-write", "disk-error-during-build"},
 		Workers:     8,
 		QuickBudget: 100, ThoroughBudget: 2400,
 	}
